@@ -9,34 +9,22 @@ From Coq Require Import List Bool Arith Field QArith Qcanon.
 From Coq Require Import Reals.
 From SFV Require Import C15.Model C15.Proofs C15.Main C15.Instances C15.RealInst.
 
-(* For every hbar-free backend, every program without single-shot MSgate, every initial backend state and
-   every sequence of random draws: the rescaled program at hbar' drives the backend into the SAME internal
-   state as the original at hbar, and every homodyne outcome is multiplied by lam. *)
+(* For every hbar-free backend, EVERY program (X/Z/V gates with and without .H, Gaussian preparations direct and
+   decomposed, homodyne with and without post-selection, single-shot MSgate, any hbar-free operation), every
+   initial backend state and every sequence of random draws: the rescaled program at hbar' drives the backend into
+   the SAME internal state as the original at hbar, and every measured quadrature value (homodyne outcomes and
+   MSgate ancilla values) is multiplied by lam. *)
 Theorem C15_program_invariant :
   forall (K : Type) (F : Fld K),
     field_theory (f0 F) (f1 F) (fadd F) (fmul F) (fsub F) (fopp F) (fdiv F) (finv F) (@eq K) ->
     two F <> f0 F -> (forall x, fisz F x = true <-> x = f0 F) ->
   forall (c c' : hctx K) (lam : K), good F c -> good F c' -> sh2 c' = fmul F lam (sh2 c) ->
   forall (B : Type) (halfpi : K) (gauss_id : nat) (bk : backend B) (p : list op) (b : B) (ds : list K),
-    forallb (fun o => negb (is_ms o)) p = true ->
     run F B halfpi gauss_id c' bk (map (rescale F lam) p) b ds
     = (fst (run F B halfpi gauss_id c bk p b ds),
        map (scale_outcome F lam) (snd (run F B halfpi gauss_id c bk p b ds))).
 Proof. exact (@main_program). Qed.
 Print Assumptions C15_program_invariant.
-
-(* The same for arbitrary programs, with what the source does to MSgate's ancilla value (divides by lam). *)
-Theorem C15_program_as_implemented :
-  forall (K : Type) (F : Fld K),
-    field_theory (f0 F) (f1 F) (fadd F) (fmul F) (fsub F) (fopp F) (fdiv F) (finv F) (@eq K) ->
-    two F <> f0 F -> (forall x, fisz F x = true <-> x = f0 F) ->
-  forall (c c' : hctx K) (lam : K), good F c -> good F c' -> sh2 c' = fmul F lam (sh2 c) ->
-  forall (B : Type) (halfpi : K) (gauss_id : nat) (bk : backend B) (p : list op) (b : B) (ds : list K),
-    run F B halfpi gauss_id c' bk (map (rescale F lam) p) b ds
-    = (fst (run F B halfpi gauss_id c bk p b ds),
-       map (scale_outcome_impl F lam) (snd (run F B halfpi gauss_id c bk p b ds))).
-Proof. exact (@main_program_as_implemented). Qed.
-Print Assumptions C15_program_as_implemented.
 
 (* Quadrature means of the final state object scale by lam = sqrt(hbar'/hbar), for every program. *)
 Theorem C15_means_scale :
@@ -170,39 +158,48 @@ Theorem C15_bosonic_dimensionless :
 Proof. exact (@main_bosonic). Qed.
 Print Assumptions C15_bosonic_dimensionless.
 
-(* Gaussian parity_expectation over the full register (len(modes) = N) is hbar-free ... *)
-Theorem C15_parity_full_register_invariant :
+(* Gaussian parity_expectation(modes) is hbar-free for EVERY subset of the modes (m = len(modes); detcov the
+   determinant of the 2m x 2m reduced covariance matrix, which scales by lam^(4m)). *)
+Theorem C15_parity_invariant :
   forall (K : Type) (F : Fld K),
     field_theory (f0 F) (f1 F) (fadd F) (fmul F) (fsub F) (fopp F) (fdiv F) (finv F) (@eq K) ->
     two F <> f0 F ->
   forall (c c' : hctx K) (lam : K), good F c -> good F c' -> sh2 c' = fmul F lam (sh2 c) ->
-  forall (N : nat) (numsq detcov : K), detcov <> f0 F ->
-    parity_sq F c' N numsq (fmul F (kpow F (fmul F lam lam) (2 * N)) detcov) = parity_sq F c N numsq detcov.
-Proof. exact (@main_parity_full). Qed.
-Print Assumptions C15_parity_full_register_invariant.
+  forall (m : nat) (numsq detcov : K), detcov <> f0 F ->
+    parity_sq F c' m numsq (fmul F (kpow F (fmul F lam lam) (2 * m)) detcov) = parity_sq F c m numsq detcov.
+Proof. exact (@main_parity). Qed.
+Print Assumptions C15_parity_invariant.
 
-(* ... but not over a proper subset of the modes (finding gaussian:parity_expectation:subset-hbar). *)
-Theorem C15_parity_subset_refuted :
+(* is_coherent / is_squeezed / squeezing leave the stored covariance of a one-mode state alone in every convention. *)
+Theorem C15_is_coherent_store_unchanged :
+  forall (K : Type) (c : hctx K) (cov : list (list K)), is_coherent_1mode_store c cov = cov.
+Proof. exact (@main_is_coherent_store_unchanged). Qed.
+Print Assumptions C15_is_coherent_store_unchanged.
+
+(* ---- the behaviour before the fix: commits (kept as `*_old` definitions) is refuted ---- *)
+
+(* parity with the determinant of the FULL covariance matrix on a proper subset (before 5603fbf) *)
+Theorem C15_parity_subset_old_refuted :
   exists (c c' : hctx Qc) (lam : Qc) (N m : nat) (numsq detcov : Qc),
     good QcF c /\ good QcF c' /\ scaled QcF lam c c' /\ (m < N)%nat /\ detcov <> f0 QcF /\
-    parity_sq QcF c' m numsq (fmul QcF (kpow QcF (fmul QcF lam lam) (2 * N)) detcov) <> parity_sq QcF c m numsq detcov.
-Proof. exact parity_subset_not_invariant. Qed.
-Print Assumptions C15_parity_subset_refuted.
+    parity_sq_old QcF c' m numsq (fmul QcF (kpow QcF (fmul QcF lam lam) (2 * N)) detcov) <> parity_sq_old QcF c m numsq detcov.
+Proof. exact parity_subset_old_not_invariant. Qed.
+Print Assumptions C15_parity_subset_old_refuted.
 
-(* MSgate(avg=False): the ancilla homodyne value does not scale like a quadrature (finding msgate:ancilla-scale). *)
-Theorem C15_msgate_ancilla_refuted :
+(* MSgate(avg=False) returning ancillae_val / s (before 9dd729a): the value does not scale like a quadrature *)
+Theorem C15_msgate_ancilla_old_refuted :
   exists (c c' : hctx Qc) (lam v : Qc), good QcF c /\ good QcF c' /\ scaled QcF lam c c' /\
-    msgate_result QcF c' v <> fmul QcF lam (msgate_result QcF c v).
-Proof. exact msgate_ancilla_not_scaled. Qed.
-Print Assumptions C15_msgate_ancilla_refuted.
+    msgate_result_old QcF c' v <> fmul QcF lam (msgate_result_old QcF c v).
+Proof. exact msgate_ancilla_old_not_scaled. Qed.
+Print Assumptions C15_msgate_ancilla_old_refuted.
 
-(* is_coherent / is_squeezed / squeezing on a one-mode Gaussian state leave the stored covariance alone
-   at hbar = 2 but overwrite it at other values (finding gaussian-state:is_coherent-mutates-cov). *)
-Theorem C15_is_coherent_store_refuted :
-  (forall cov : list (list Qc), is_coherent_1mode_store QcF ctx2 cov = cov)
-  /\ exists (c : hctx Qc) (cov : list (list Qc)), good QcF c /\ is_coherent_1mode_store QcF c cov <> cov.
-Proof. exact (conj is_coherent_store_unchanged_hbar2 is_coherent_store_changed). Qed.
-Print Assumptions C15_is_coherent_store_refuted.
+(* is_coherent / is_squeezed / squeezing dividing the stored covariance in place (before 0265ab6): harmless at
+   hbar = 2, wrong at any other value *)
+Theorem C15_is_coherent_store_old_refuted :
+  (forall cov : list (list Qc), is_coherent_1mode_store_old QcF ctx2 cov = cov)
+  /\ exists (c : hctx Qc) (cov : list (list Qc)), good QcF c /\ is_coherent_1mode_store_old QcF c cov <> cov.
+Proof. exact (conj is_coherent_store_old_unchanged_hbar2 is_coherent_store_old_changed). Qed.
+Print Assumptions C15_is_coherent_store_old_refuted.
 
 (* Over the reals, with the real square root, the hypotheses of all theorems above hold for EVERY pair
    hbar, hbar' > 0, with lam = sqrt(hbar'/hbar).  (Uses the standard library's axioms of the reals.) *)
